@@ -137,7 +137,9 @@ func addKeyType[K comparable](name string, pool func() []K) {
 }
 
 func init() {
-	addKeyType("string", func() []string { return []string{"", "a", "abc", strFrom("ab", "c"), strFrom("", ""), "k1", "k2", "\x00", "a\x00"} })
+	addKeyType("string", func() []string {
+		return []string{"", "a", "abc", strFrom("ab", "c"), strFrom("", ""), "k1", "k2", "\x00", "a\x00"}
+	})
 	addKeyType("int", func() []int { return []int{0, 1, -1, 2, math.MaxInt64, math.MinInt64, 32, 64} })
 	addKeyType("int8", func() []int8 { return []int8{0, 1, -1, 127, -128} })
 	addKeyType("int16", func() []int16 { return []int16{0, 1, -1, 32767} })
@@ -149,9 +151,13 @@ func init() {
 	addKeyType("uint32", func() []uint32 { return []uint32{0, 1, math.MaxUint32} })
 	addKeyType("uint64", func() []uint64 { return []uint64{0, 1, math.MaxUint64} })
 	addKeyType("uintptr", func() []uintptr { return []uintptr{0, 1, 4096} })
-	addKeyType("float64", func() []float64 { return []float64{0, negZero, 1, -1, math.Inf(1), math.Inf(-1), math.SmallestNonzeroFloat64, 0.1 + 0.2, 0.3} })
+	addKeyType("float64", func() []float64 {
+		return []float64{0, negZero, 1, -1, math.Inf(1), math.Inf(-1), math.SmallestNonzeroFloat64, 0.1 + 0.2, 0.3}
+	})
 	addKeyType("float32", func() []float32 { return []float32{0, float32(negZero), 1, -1, float32(math.Inf(1))} })
-	addKeyType("complex128", func() []complex128 { return []complex128{0, complex(negZero, 0), complex(0, negZero), complex(negZero, negZero), 1i, 1} })
+	addKeyType("complex128", func() []complex128 {
+		return []complex128{0, complex(negZero, 0), complex(0, negZero), complex(negZero, negZero), 1i, 1}
+	})
 	addKeyType("complex64", func() []complex64 { return []complex64{0, complex(float32(negZero), 0), 1i, 1} })
 	addKeyType("bool", func() []bool { return []bool{true, false} })
 	addKeyType("*int", func() []*int { return []*int{nil, &ptrTargets[0], &ptrTargets[1], &ptrTargets[2], &ptrTargets[0]} })
@@ -160,7 +166,9 @@ func init() {
 	})
 	addKeyType("chan int", func() []chan int { return []chan int{nil, chans[0], chans[1], chans[2], chans[0]} })
 	addKeyType("[3]int", func() [][3]int { return [][3]int{{}, {1, 2, 3}, {3, 2, 1}, {1, 2, 3}} })
-	addKeyType("[2]string", func() [][2]string { return [][2]string{{}, {"a", "b"}, {strFrom("a"), strFrom("b")}, {"ab", ""}, {"a", "b" + ""}} })
+	addKeyType("[2]string", func() [][2]string {
+		return [][2]string{{}, {"a", "b"}, {strFrom("a"), strFrom("b")}, {"ab", ""}, {"a", "b" + ""}}
+	})
 	addKeyType("[2]float64", func() [][2]float64 { return [][2]float64{{0, 0}, {negZero, 0}, {0, negZero}, {1, 2}} })
 	addKeyType("struct pad", func() []pad {
 		return []pad{{}, {1, 2}, padWithGarbage(1, 2, 0xAA), padWithGarbage(1, 2, 0x55), padWithGarbage(0, 0, 0xFF), {2, 1}}
@@ -188,7 +196,9 @@ func init() {
 	addKeyType("struct{}", func() []struct{} { return []struct{}{{}, {}} })
 	// defined types over every basic kind (a fast path keyed on reflect.Kind must
 	// not assume the predeclared type)
-	addKeyType("named string", func() []namedStr { return []namedStr{"", "a", namedStr(strFrom("a")), "ab", namedStr(strFrom("a", "b"))} })
+	addKeyType("named string", func() []namedStr {
+		return []namedStr{"", "a", namedStr(strFrom("a")), "ab", namedStr(strFrom("a", "b"))}
+	})
 	addKeyType("named int", func() []namedInt { return []namedInt{0, 1, -1, math.MaxInt64} })
 	addKeyType("named int32", func() []namedInt32 { return []namedInt32{0, 1, -1, math.MaxInt32} })
 	addKeyType("named uint8", func() []namedU8 { return []namedU8{0, 1, 255} })
@@ -227,13 +237,13 @@ type containerK[K comparable] interface {
 
 type mapK[K comparable] struct{ m cache.MapOf[K, int64] }
 
-func (a mapK[K]) store(k K, v int64)                       { a.m.Store(k, v) }
-func (a mapK[K]) load(k K) (int64, bool)                   { return a.m.Load(k) }
-func (a mapK[K]) loadOrStore(k K, v int64) (int64, bool)   { return a.m.LoadOrStore(k, v) }
-func (a mapK[K]) loadAndDelete(k K) (int64, bool)          { return a.m.LoadAndDelete(k) }
-func (a mapK[K]) del(k K)                                  { a.m.Delete(k) }
-func (a mapK[K]) rng(f func(K, int64) bool)                { a.m.Range(f) }
-func (a mapK[K]) size() int                                { return a.m.Size() }
+func (a mapK[K]) store(k K, v int64)                     { a.m.Store(k, v) }
+func (a mapK[K]) load(k K) (int64, bool)                 { return a.m.Load(k) }
+func (a mapK[K]) loadOrStore(k K, v int64) (int64, bool) { return a.m.LoadOrStore(k, v) }
+func (a mapK[K]) loadAndDelete(k K) (int64, bool)        { return a.m.LoadAndDelete(k) }
+func (a mapK[K]) del(k K)                                { a.m.Delete(k) }
+func (a mapK[K]) rng(f func(K, int64) bool)              { a.m.Range(f) }
+func (a mapK[K]) size() int                              { return a.m.Size() }
 func (a mapK[K]) compute(k K, f func(int64, bool) (int64, bool)) (int64, bool) {
 	return a.m.Compute(k, f)
 }
